@@ -238,8 +238,11 @@ Definition add_meta (d : descr) (meta : amap) : option descr :=
 (* ===================== 4. inputs ===================== *)
 
 (* a blob as the descriptor generators see it: its size and its digest under
-   each algorithm (facts computed by go-digest in the harness) *)
-Record blob := mk_blob { b_size : Z; b_d256 : string; b_d384 : string; b_d512 : string }.
+   each algorithm (facts computed by go-digest over the complete content in the
+   harness, whatever the shape of the io.Reader: short reads, data delivered
+   together with io.EOF, (0, nil) reads) *)
+Record blob := mk_blob { b_size : Z; b_d256 : string; b_d384 : string; b_d512 : string;
+                         b_readerr : bool }.   (* the io.Reader fails with a non-EOF error before the end *)
 
 Definition blob_digest (b : blob) (algname : string) : string :=
   if algname =? "sha256" then b_d256 b else if algname =? "sha384" then b_d384 b
@@ -440,6 +443,7 @@ Section Pipeline.
         match signer_algorithms (alg_hash (sig_alg (i_ks i))) with     (* getDescriptor *)
         | None => sfail 3 None
         | Some an =>
+            if b_readerr b then sfail 3 (Some an) else      (* io.Copy error inside the generator *)
             match blob_descriptor b mt (i_meta i) an with
             | None => sfail 2 (Some an)
             | Some desc =>
@@ -456,6 +460,7 @@ Section Pipeline.
             match signer_algorithms (alg_hash (sig_alg ks)) with
             | None => sfail 3 None
             | Some an =>
+                if b_readerr b then sfail 3 (Some an) else
                 match blob_descriptor b mt (i_meta i) an with
                 | None => sfail 2 (Some an)
                 | Some desc =>
@@ -525,6 +530,7 @@ Section Pipeline.
              match verifier_algorithms (alg_hash (e_alg e)) with
              | None => vfail 9 None
              | Some an =>
+                 if b_readerr b then vfail 5 (Some an) else
                  match blob_descriptor b mt (i_vmeta i) an with
                  | None => vfail 5 (Some an)
                  | Some desc =>
@@ -667,7 +673,7 @@ Definition legal (i : input) : bool :=
   && forallb (fun e => negb (has_prefix "io.cncf.notary" (fst e))) (i_meta i)
   && match i_target i with
      | TOCI d => json_safe (d_mt d) && json_safe (d_digest d)
-     | TBlob b mt mt_ok => negb (mt =? "") && mt_ok && json_safe mt
+     | TBlob b mt mt_ok => negb (b_readerr b) && negb (mt =? "") && mt_ok && json_safe mt
                            && json_safe (b_d256 b) && json_safe (b_d384 b) && json_safe (b_d512 b)
      end.
 
@@ -700,7 +706,8 @@ Definition positive (i : input) (signed : descr) (an : string) : bool :=
   && match i_target i, i_vtarget i with
      | TOCI _, TOCI vd => content_equal signed vd
      | TBlob _ _ _, TBlob vb vmt vmt_ok =>
-         String.eqb (blob_digest vb an) (d_digest signed) && (b_size vb =? d_size signed)%Z
+         negb (b_readerr vb)
+         && String.eqb (blob_digest vb an) (d_digest signed) && (b_size vb =? d_size signed)%Z
          && ((vmt =? "") || (String.eqb vmt (d_mt signed) && vmt_ok))
      | _, _ => false
      end.
